@@ -54,18 +54,25 @@ COMMENT_K = {
 R2_TOO_DEEP = {"attribute_name_state"}
 TEXT_STATES = ["data_state", "plaintext_state", "rcdata_state", "rawtext_state", "script_data_state", "cdata_section_state"]
 
+# quick tier: which (state, property) pairs are checked on every change (the thorough tier runs every state
+# for every property); chosen so that each property's quick check stays under ~10 minutes (DESIGN §3.5)
 QUICK_LEXER = {
-    "data_state", "tag_open_state", "end_tag_open_state", "tag_name_state", "before_attribute_name_state",
-    "attribute_name_state", "after_attribute_name_state", "before_attribute_value_state",
-    "attribute_value_double_quoted_state", "attribute_value_unquoted_state", "self_closing_start_tag_state",
-    "comment_state", "comment_end_state", "bogus_comment_state", "rcdata_state", "rcdata_end_tag_name_state",
-    "script_data_state", "plaintext_state",
+    "data_state": "C01", "tag_open_state": "C01", "tag_name_state": "C01,C16", "comment_end_state": "C01", "bogus_comment_state": "C01",
+    "plaintext_state": "C01,C15",
+    "rcdata_state": "C02", "attribute_value_double_quoted_state": "C02,C14", "after_attribute_name_state": "C02,C16", "comment_state": "C02,C14",
+    "rcdata_end_tag_name_state": "C03", "script_data_end_tag_name_state": "C03",
+    "self_closing_start_tag_state": "C06", "before_attribute_name_state": "C06,C16",
+    "before_attribute_value_state": "C14", "attribute_value_unquoted_state": "C14", "doctype_name_state": "C14",
+    "end_tag_open_state": "C15", "script_data_state": "C15", "comment_start_state": "C15",
+    "attribute_name_state": "C16", "attribute_value_single_quoted_state": "C16",
 }
 QUICK_SCANNER = {
-    "data_state", "tag_open_state", "end_tag_open_state", "tag_name_state", "before_attribute_name_state",
-    "attribute_value_double_quoted_state", "comment_state", "bogus_comment_state", "rcdata_state",
-    "rcdata_end_tag_name_state", "script_data_escaped_end_tag_name_state", "markup_declaration_open_state",
-    "cdata_section_bracket_state", "script_data_escaped_state",
+    "data_state": "C01,C09", "tag_name_state": "C01,C06,C09",
+    "markup_declaration_open_state": "C02,C09", "cdata_section_bracket_state": "C02", "script_data_escaped_state": "C02",
+    "rcdata_end_tag_name_state": "C03,C06,C09", "script_data_escaped_end_tag_name_state": "C03,C09",
+    "tag_open_state": "C09", "end_tag_open_state": "C09", "bogus_comment_state": "C09", "comment_state": "C09",
+    "script_data_double_escaped_state": "C09", "script_data_double_escaped_less_than_sign_state": "C09", "rcdata_state": "C09",
+    "plaintext_state": "C15", "before_attribute_name_state": "C15",
 }
 
 
@@ -371,9 +378,9 @@ def gen_lexer(m, tier):
                 props.append("C03")
             if m.emits_tag[n]:
                 props.append("C06")
-            t = "quick" if n in QUICK_LEXER and nb <= 4 and cut != 2 else "thorough"
+            q = QUICK_LEXER.get(n, "") if (nb <= 4 and cut != 2) else ""
             props.append("STEPL")
-            w("// @verif props=%s tier=%s fns=Lexer::%s note=one_step_from_arbitrary_invariant_state" % (",".join(props), t, n))
+            w("// @verif props=%s tier=thorough quick=%s fns=Lexer::%s note=one_step_from_arbitrary_invariant_state" % (",".join(props), q, n))
             nbv, nbt = nb, nb_th
             if cut is not None and end_tag == "true":
                 # an end tag under construction needs room for "</x" + a delimiter before the cursor
